@@ -193,8 +193,8 @@ def n5_run(carve):
 
     from .c13 import _enum_outcome
 
-    L = pl.DataFrame({"k": [1, 2, 2, 3, None, 7], "x": [10, 20, 21, 30, 40, 70], "h": [1, 2, 3, 4, 5, 6], "kf": [1.0, 2.0, 2.0, 3.0, None, 7.0]})
-    R = pl.DataFrame({"k": [2, 2, 3, 4, None, 7], "y": [200, 201, 300, 400, 500, 5], "g": [1, 2, 3, 4, 5, 6]})
+    L = pl.DataFrame({"k": [1, 2, 2, 3, None, 7], "x": [10, 20, 21, 30, 40, 70], "h": [1, 2, 3, 4, 5, 6], "kf": [1.0, 2.0, 2.0, 3.0, None, 7.0], "z": [0, -1, 2, 3, None, 7]})
+    R = pl.DataFrame({"k": [2, 2, 3, 4, None, 7], "y": [200, 201, 300, 400, 500, 5], "g": [1, 2, 3, 4, 5, 6], "zf": [2.5, -0.5, 3.5, 3.9, None, -1.5]})
     R2 = pl.DataFrame({"g2": [1, 2, 3, 4, 5, 6], "v": [7, None, 9, None, 11, 12]})
     lrows, rrows = L.rows(), R.rows()
     preds = {
@@ -213,6 +213,12 @@ def n5_run(carve):
         "eq_float_int": (lambda l, r: l.kf == r.k, lambda a, b: a[3] is not None and b[0] is not None and a[3] == b[0]),
         "eq_int_float_swapped": (lambda l, r: r.k == l.kf, lambda a, b: a[3] is not None and b[0] is not None and a[3] == b[0]),
         "eq_float_int_and_lt": (lambda l, r: (l.kf == r.k) & (l.x < r.y), lambda a, b: a[3] is not None and b[0] is not None and a[3] == b[0] and a[1] < b[1]),
+        # an integer key against a float key with FRACTIONAL values, written from either side (the comparison is made in the common type)
+        "int_lt_float_frac": (lambda l, r: l.z < r.zf, lambda a, b: a[4] is not None and b[3] is not None and a[4] < b[3]),
+        "int_le_float_frac": (lambda l, r: l.z <= r.zf, lambda a, b: a[4] is not None and b[3] is not None and a[4] <= b[3]),
+        "float_frac_le_int": (lambda l, r: r.zf <= l.z, lambda a, b: a[4] is not None and b[3] is not None and b[3] <= a[4]),
+        "eq_and_int_ge_float_frac": (lambda l, r: (l.k == r.k) & (l.z >= r.zf), lambda a, b: a[0] is not None and b[0] is not None and a[0] == b[0] and a[4] is not None and b[3] is not None and a[4] >= b[3]),
+        "int_eq_float_frac": (lambda l, r: l.z == r.zf, lambda a, b: a[4] is not None and b[3] is not None and a[4] == b[3]),
         "lt_float_int": (lambda l, r: l.kf < r.k, lambda a, b: a[3] is not None and b[0] is not None and a[3] < b[0]),
     }
     n, bad = 0, []
@@ -223,11 +229,11 @@ def n5_run(carve):
         for a in lrows:
             m = [j for j, b in enumerate(rrows) if py(a, b)]
             matched_r.update(m)
-            out += [a[:3] + rrows[j] for j in m]
+            out += [a[:3] + rrows[j][:3] for j in m]
             if not m and how in ("left", "full"):
                 out.append(a[:3] + (None, None, None))
         if how == "full":
-            out += [(None, None, None) + b for j, b in enumerate(rrows) if j not in matched_r]
+            out += [(None, None, None) + b[:3] for j, b in enumerate(rrows) if j not in matched_r]
         return out
 
     key = lambda r: tuple((v is None, v if v is not None else 0) for v in r)  # noqa: E731
@@ -244,7 +250,7 @@ def n5_run(carve):
                 l, r, r2 = pdt.Table("l", pdt.SqlAlchemy(eng)), pdt.Table("r", pdt.SqlAlchemy(eng)), pdt.Table("r2", pdt.SqlAlchemy(eng))
             for pname, (on, py) in preds.items():
                 for how in ("inner", "left", "full"):
-                    if how == "full" and pname not in ("eq", "eq_swapped", "two_eq", "two_eq_second_swapped", "expr_key", "eq_float_int", "eq_int_float_swapped"):
+                    if how == "full" and pname not in ("eq", "eq_swapped", "two_eq", "two_eq_second_swapped", "expr_key", "eq_float_int", "eq_int_float_swapped", "int_eq_float_frac"):
                         continue
                     for variant in ("plain", "right_hidden", "left_filtered", "left_filtered_alias", "right_filtered_alias", "right_const", "right_const_alias", "left_const", "right_filtered", "right_computed", "left_computed", "right_computed_alias", "right_nested_join_alias", "left_computed_alias"):
                         if "join_helper" in carve and False:
@@ -369,7 +375,7 @@ def obligations(tier):
                                       functions=f, bounded=f"table widths {ls.w} and {rs.w} (names symbolic, collisions explored)", tags=("cross_backend",),
                                       carveouts={"join_helper_names": "no column is named __INDEX__ or <left column>_right"}, replayer=make_replayer(ls, rs, label, fn, "polars" if backend == "polars" else "sqlite")))
     obs.append(Obligation("C06/N5/native_matrix", "N5", "exact row combinations of inner / left / full joins natively", n5_run, functions=fns_p + [fi(H.sql_backend.SqlImpl.compile_ast)],
-                          bounded="15 predicate shapes (incl. pdt.all(...) of three predicates) (incl. Float64 vs Int64 keys, equalities written from either side) x 3 join kinds x 13 operand variants (plain, hidden right key, filtered left / right (also below alias(), also for full joins), constant or computed non-null-preserving column on either side, also below alias() and below a nested join) x 2 backends on one pair of 6-row tables with nulls, duplicates and unmatched rows"))
+                          bounded="20 predicate shapes (incl. pdt.all(...) of three predicates) (incl. Float64 vs Int64 keys - also fractional values against integer keys -, equalities written from either side) x 3 join kinds x 13 operand variants (plain, hidden right key, filtered left / right (also below alias(), also for full joins), constant or computed non-null-preserving column on either side, also below alias() and below a nested join) x 2 backends on one pair of 6-row tables with nulls, duplicates and unmatched rows"))
     obs.append(Obligation("C06/N6/wrappers", "N6", "inner_join / left_join / full_join / cross_join are join(how=...)", n6_run, functions=[fi(verbs_mod.inner_join), fi(verbs_mod.left_join), fi(verbs_mod.full_join), fi(verbs_mod.cross_join), fi(verbs_mod.join)],
                           bounded="3 wrappers x 3 keyword sets x 3 shapes of `on` (+ cross_join); the wrappers are straight-line calls"))
     return obs
